@@ -40,11 +40,14 @@ var DefaultPatterns = []string{
 	"sort",
 }
 
-var DefaultInit = []string{
-	"io",
-	"io/fs",
-	"github.com/pojntfx/stfs/pkg/config",
-	"github.com/pojntfx/stfs/pkg/operations",
-	"github.com/pojntfx/stfs/internal/db/sqlite/models/metadata",
-	ModelPkg,
+var DefaultInit = initList()
+
+func initList() []string {
+	out := []string{"io", "io/fs", "io/ioutil", "archive/tar"}
+	for _, p := range DefaultPatterns {
+		if len(p) > 24 && p[:24] == "github.com/pojntfx/stfs/" {
+			out = append(out, p)
+		}
+	}
+	return out
 }
